@@ -628,13 +628,15 @@ thread_local! {
 /// 1..3 and compares the result line with the `for`-loop run.
 ///   1  `for_each`                      2  one `next()`, then `for_each`
 ///   3  `size_hint()` first, then `nth(0)` until `None`; the hint must bracket the count
-/// Internal iteration cannot be stopped: modes 1 and 2 are used only when `size_hint` promises an end within the budget
-/// (an endless `repeat(..)` stream falls back to the loop).
+/// Internal iteration cannot be stopped: modes 1 and 2 are not used for a stream whose `size_hint` lower bound is above the
+/// budget (an endless `repeat(..)` falls back to the loop), and panic once the budget is exceeded.
 pub fn drain_iter<T, I: Iterator<Item = T>>(mut it: I, budget: u64, exceeded: &mut bool) -> Vec<T> {
     DRAIN_CALLS.with(|c| c.set(c.get() + 1));
     let mut mode = CONSUME_MODE.with(|m| m.get());
     let (lo, hi) = it.size_hint();
-    if (mode == 1 || mode == 2) && !matches!(hi, Some(h) if (h as u64) <= budget) {
+    // an endless std stream (`repeat(..)` and adaptors over it) announces itself by its lower bound; most library
+    // iterators have no size_hint of their own ((0, None)), so the upper bound cannot be the criterion
+    if (mode == 1 || mode == 2) && (lo as u64) > budget {
         mode = 0;
     }
     let mut v: Vec<T> = Vec::new();
@@ -645,7 +647,14 @@ pub fn drain_iter<T, I: Iterator<Item = T>>(mut it: I, budget: u64, exceeded: &m
                     v.push(x);
                 }
             }
-            it.for_each(|x| v.push(x));
+            it.for_each(|x| {
+                // internal iteration cannot be stopped: a runaway iterator ends the op with a panic (caught by main.rs;
+                // the result then differs from the loop's, which stopped at the budget and reported it)
+                if v.len() as u64 >= budget {
+                    panic!("recording budget exceeded during internal iteration");
+                }
+                v.push(x)
+            });
         }
         3 => {
             let mut n = 0u64;
